@@ -17,6 +17,8 @@
 //!                                   disconnect has been asked for, off=0: it never does (bounded wait of 1 s).
 //!                                   Answer: the effects, then ` w=<n>`: the run loop returned n ms after the request
 //!                                   (`w=never`: not within the bound). Every later request answers `-`.
+//! `pf=1` on `host new` (ignored by the model): the user's Client REJECTS every NCMD publish (returns Err, e.g. the
+//! connection just dropped); the host's duties (hold the node stale, tell the stores) do not depend on the answer.
 //! `m=0` on ndata / dbirth / ddata: the payload carries NO metrics (legal: seq and timestamp only); the store call
 //! cannot show the message's id then (`nodeData(-1)`, `devData(d,-1)`, `devBirth(d,-1,1)`).
 //! Answer: the effects observed, e.g. `n1:nodeBirth(5,1);n1:devStale(2);n1:ncmd` or `-`.
@@ -206,6 +208,8 @@ pub struct Sess {
     run_done: bool,
     /// `AppClient::cancel()` has been called
     pub cancelled: bool,
+    /// `pf=1`: the Client rejects every NCMD publish
+    pub pf: bool,
 }
 
 /// how the event loop answers the disconnect `AppClient::cancel()` asks for
@@ -300,6 +304,10 @@ async fn start_app(cfgw: &[&str], reset_clock: bool, strict: bool) -> (Hub, Even
         // the client's request queue is "full" from now on: try_ calls fail, blocking calls get through
         hub.default_try(Some(crate::mock::Decision::Reject));
     }
+    if kv(cfgw, "pf") == Some("1") {
+        // a user Client that fails every NCMD publish (blocking or not)
+        hub.rule(Some(crate::mock::Kind::NCmd), crate::mock::Decision::Reject, usize::MAX);
+    }
     if reset_clock {
         set_clocks(now);
     }
@@ -385,6 +393,7 @@ impl Sess {
             run: APP_RUN.with(|c| c.borrow_mut().take()),
             run_done: false,
             cancelled: false,
+            pf: kv(w, "pf") == Some("1"),
         }
     }
 
@@ -556,8 +565,9 @@ impl Sess {
                                 && p.metrics[0].name.as_deref() == Some("Node Control/Rebirth")
                                 && p.metrics[0].value == Some(metric::Value::BooleanValue(true))
                         });
-                        if refused.contains(&id) {
-                            // handed over by a call that could not wait: nothing was published
+                        if refused.contains(&id) && c.is_try {
+                            // handed over by a call that could not wait: nothing was published (a WAITING publish the
+                            // user's Client answers with Err - `pf=1` - is a request the host did make: `ncmd`)
                             v.push((n, "ncmdLost".into()));
                         } else {
                             v.push((n, if ok == Some(true) { "ncmd".into() } else { "ncmd?".into() }));
@@ -728,6 +738,15 @@ impl Sess {
                     // C06 first sentence
                     if self.node_life.get(n) != Some(&true) {
                         out.fail("C06:data-needs-node-birth", name, format!("{} => {:?}", op, effs));
+                        // C05, first sentence: messages are applied "between an accepted NBIRTH and the next staleness":
+                        // the stores were told the node is stale and no NBIRTH has been accepted since
+                        if self.node_life.get(n) == Some(&false) {
+                            out.fail(
+                                "C05:applied-between-birth-and-staleness",
+                                if self.pf { "after-staleness:client-refuses-rebirth-ncmd" } else { "after-staleness" },
+                                format!("{} => {:?}: applied although the node's stores were last told `stale` and no NBIRTH was accepted since", op, effs),
+                            );
+                        }
                     }
                     if name == "devData" && self.dev_life.get(&(n.clone(), args[0].to_string())) != Some(&true) {
                         out.fail("C06:data-needs-device-birth", name, format!("{} => {:?}", op, effs));
@@ -739,6 +758,15 @@ impl Sess {
                     if self.node_life.get(n) == Some(&true) {
                         let feature = if self.birth_ts.get(n).copied().unwrap_or(0) > now { "birth_ts>host_now" } else { "held-birthed" };
                         out.fail("C07:ncmd-only-when-stale", feature, format!("{} => {:?}", op, effs));
+                    }
+                    // C06 second sentence: a rebirth request issued by the host marks the node's stores stale (whatever
+                    // the user's Client answers to the publish). The clock-incoherent case is K1 (C06:death-marks-stale)
+                    if self.node_life.get(n) == Some(&true) && self.birth_ts.get(n).copied().unwrap_or(0) <= now {
+                        out.fail(
+                            "C06:rebirth-request-marks-stale",
+                            if self.pf { "client-refuses-rebirth-ncmd" } else { "held-birthed" },
+                            format!("{} => {:?}: rebirth NCMD requested while the node's stores were last told `birthed`", op, effs),
+                        );
                     }
                     if self.clean {
                         out.fail("C07:no-spurious-rebirth", "clean-stream", format!("{} => {:?}", op, effs));
@@ -1598,7 +1626,175 @@ fn trigger_scenarios(out: &mut Out) {
     // the same with a client whose request queue is full (try_ calls fail at once, blocking calls
     // wait and get through): the rebirth NCMD must still go out
     trigger_scenarios_with(out, "ip=1 bd=1 un=1 ud=1 um=1 rf=1 rs=1 to=100 cd=0 rq=1 q=1024 tf=1");
+    // the same with a user Client that answers every NCMD publish with Err: the host still asks and holds the node stale
+    trigger_scenarios_with(out, "ip=1 bd=1 un=1 ud=1 um=1 rf=1 rs=1 to=100 cd=0 rq=1 q=1024 pf=1");
     trigger_scenarios_no_reseq(out);
+}
+
+/// A USER MetricStore that REFUSES a well-formed, strictly newer NBIRTH (`ans=inv|unk`), in every configuration: reason
+/// InvalidPayload on / off, cooldown 0 / running; node birthed (devices birthed, data admitted: expected seq != 1) or
+/// held stale. What the properties say:
+///  * the refusal requests no rebirth (reason off or cooldown running): C14 "leaves all state untouched" - the line has
+///    no effect but the refused store call, a birthed node stays on its session and the following in-sequence messages
+///    of that session are applied by the lines that deliver them (C05: none is withheld); a stale node stays stale, so
+///    later data is not applied (C06) and asks for the rebirth (C07: data while the node is held stale)
+///  * the refusal requests a rebirth (reason on, no cooldown): one NCMD, node held stale, later data not applied
+fn refused_birth_scenarios(out: &mut Out, rng: &mut Rng) {
+    let t0 = 1_000_000u64;
+    for (ip, cd) in [(0u8, 0u64), (1, 0), (1, 500), (0, 500)] {
+        for birthed in [true, false] {
+            for ans in ["inv", "unk"] {
+                let cfg = format!("ip={} bd=1 un=1 ud=1 um=1 rf=1 rs=1 to=100 cd={} rq=1 q=1024", ip, cd);
+                let feat = format!("store-refuses-newer-nbirth:{}:ip={}:cd={}", if birthed { "node-birthed" } else { "node-stale" }, ip, cd);
+                let mut c = Case::begin(out, &cfg, t0);
+                c.out.set_desc(format!("refused-birth {}", feat));
+                let mut id = 0u64;
+                let mut nid = || {
+                    id += 1;
+                    id
+                };
+                if cd > 0 {
+                    // an unknown node's data starts the cooldown (reason UnknownNode is on)
+                    c.op(&format!("ev n1 ndata seq=7 ts={} id=0 ans=ok", c.now));
+                }
+                let ndev = rng.range(1, 2);
+                let k = rng.range(1, 5); // data admitted before the refused birth: expected seq = ndev + k + 1
+                let bd = rng.below(256);
+                c.op(&format!("ev n1 nbirth ts={} bd={} id={} ans=ok", c.now, bd, nid()));
+                let mut seq = 1u64;
+                for d in 1..=ndev {
+                    c.op(&format!("ev n1 dbirth dev={} seq={} ts={} id={} ans=ok", d, seq, c.now, nid()));
+                    seq += 1;
+                }
+                for _ in 0..k {
+                    c.op(&format!("ev n1 ndata seq={} ts={} id={} ans=ok", seq, c.now, nid()));
+                    seq += 1;
+                }
+                if !birthed {
+                    c.op(&format!("ev n1 ndeath bd={}", bd));
+                }
+                let before = c.sess.ncmds;
+                let rid = nid();
+                let line = format!("ev n1 nbirth ts={} bd={} id={} ans={}", c.now, (bd + 1) % 256, rid, ans);
+                let a = c.op(&line);
+                let asked = c.sess.ncmds - before;
+                let expect_rebirth = ip == 1 && cd == 0 && birthed; // a stale node is already stale: the NCMD goes out, no store call
+                let want_ncmd = (ip == 1 && cd == 0) as u64;
+                if asked != want_ncmd {
+                    c.out.fail(
+                        if want_ncmd == 1 { "C07:trigger-requests-rebirth" } else { "C07:no-rebirth-for-disabled-reason" },
+                        &feat,
+                        format!("`{}` => {}: {} NCMD(s), expected {}", line, a, asked, want_ncmd),
+                    );
+                }
+                if want_ncmd == 0 {
+                    // C14: apart from the rebirth request (none here) the refused message leaves all state untouched
+                    let only = format!("n1:nodeBirth({},0)", rid);
+                    if a != only {
+                        c.out.fail("C14:refused-message-leaves-state-untouched", &format!("{}:effects-of-the-refusal", feat), format!("`{}` => {}: expected only {}", line, a, only));
+                    }
+                }
+                // the traffic that follows: the applied session goes on in sequence
+                let follow_before = c.sess.ncmds;
+                let mut applied_any = false;
+                for j in 0..4u64 {
+                    let (l, want) = if j % 2 == 0 {
+                        let i = nid();
+                        (format!("ev n1 ndata seq={} ts={} id={} ans=ok", seq % 256, c.now, i), format!("n1:nodeData({})", i))
+                    } else {
+                        let i = nid();
+                        (format!("ev n1 ddata dev=1 seq={} ts={} id={} ans=ok", seq % 256, c.now, i), format!("n1:devData(1,{})", i))
+                    };
+                    seq += 1;
+                    let a2 = c.op(&l);
+                    let got = a2.split(';').any(|e| e == want);
+                    applied_any |= got;
+                    if birthed && want_ncmd == 0 && !got {
+                        c.out.fail(
+                            "C14:refused-message-leaves-state-untouched",
+                            &format!("{}:next-in-sequence-{}", feat, if j % 2 == 0 { "ndata" } else { "ddata" }),
+                            format!("after the refused `{}` the in-sequence `{}` => {}: expected {} (node still birthed on its session, expected seq not rewound)", line, l, a2, want),
+                        );
+                        c.out.fail("C05:prompt-apply", &format!("{}:next-in-sequence", feat), format!("after the refused `{}` the in-sequence `{}` => {}: expected {}", line, l, a2, want));
+                    }
+                }
+                if !(birthed && want_ncmd == 0) {
+                    // the node is held stale (it was, or the refusal made it so): nothing is applied (C06 clauses of the
+                    // per-line oracle) and the first data message asks for the rebirth when the cooldown allows
+                    let _ = expect_rebirth;
+                    let asked2 = c.sess.ncmds - follow_before;
+                    if cd == 0 && asked2 == 0 {
+                        c.out.fail("C07:trigger-requests-rebirth", &format!("{}:data-while-held-stale", feat), format!("after the refused `{}` four data messages for the stale node: {} NCMD(s), applied any: {}", line, asked2, applied_any));
+                    }
+                }
+                c.out.nontrivial();
+                c.out.count("refused-birth-scenario");
+            }
+        }
+    }
+}
+
+/// A USER Client that answers the rebirth NCMD publish with Err (`pf=1`), for every kind of trigger on a BIRTHED node,
+/// followed by more traffic of the same session: the node's stores were told `stale` (C06:rebirth-request-marks-stale),
+/// nothing is applied until a new NBIRTH (C06:data-needs-node-birth, C05:applied-between-birth-and-staleness)
+fn rejecting_client_scenarios(out: &mut Out, rng: &mut Rng) {
+    let t0 = 1_000_000u64;
+    for trig in ["duplicate-seq", "gap-timeout", "store-rejects-data", "unknown-device", "ndeath-bdseq-mismatch", "invalid-payload"] {
+        for cd in [0u64, 500] {
+            let cfg = format!("ip=1 bd=1 un=1 ud=1 um=1 rf=1 rs=1 to=100 cd={} rq=1 q={} pf=1", cd, rng.pick(&[1u64, 2, 1024]));
+            let mut c = Case::begin(out, &cfg, t0);
+            c.out.set_desc(format!("rejecting-client {} cd={}", trig, cd));
+            c.op(&format!("ev n1 nbirth ts={} bd=3 id=1 ans=ok", t0));
+            c.op(&format!("ev n1 dbirth dev=1 seq=1 ts={} id=2 ans=ok", c.now));
+            c.op(&format!("ev n1 ndata seq=2 ts={} id=3 ans=ok", c.now));
+            // expected seq is 3 now
+            let before = c.sess.ncmds;
+            let mut next = 3u64;
+            match trig {
+                "duplicate-seq" => {
+                    c.op(&format!("ev n1 ndata seq=5 ts={} id=6 ans=ok", c.now));
+                    c.op(&format!("ev n1 ndata seq=5 ts={} id=6 ans=ok", c.now));
+                }
+                "gap-timeout" => {
+                    c.op(&format!("ev n1 ndata seq=4 ts={} id=5 ans=ok", c.now));
+                    c.op("adv 101");
+                }
+                "store-rejects-data" => {
+                    c.op(&format!("ev n1 ndata seq=3 ts={} id=4 ans=inv", c.now));
+                    next = 4;
+                }
+                "unknown-device" => {
+                    c.op(&format!("ev n1 ddata dev=9 seq=3 ts={} id=4 ans=ok", c.now));
+                    next = 4;
+                }
+                "ndeath-bdseq-mismatch" => {
+                    c.op("ev n1 ndeath bd=9");
+                }
+                _ => {
+                    c.op("inv n1");
+                }
+            }
+            let asked = c.sess.ncmds - before;
+            let stale = c.sess.node_life.get("n1") == Some(&false);
+            if asked != 1 || !stale {
+                c.out.fail("C07:trigger-requests-rebirth", &format!("client-refuses-rebirth-ncmd:{}", trig), format!("{} NCMD publish(es) attempted, node's stores told stale: {}", asked, stale));
+            }
+            if !stale {
+                c.out.fail("C06:rebirth-request-marks-stale", &format!("client-refuses-rebirth-ncmd:{}", trig), format!("trigger {}: the node's store was not told `stale`", trig));
+            }
+            // the old session goes on (its publisher never saw the command): nothing of it may be applied any more
+            for j in 0..5u64 {
+                let id = 10 + j;
+                if j % 2 == 0 {
+                    c.op(&format!("ev n1 ndata seq={} ts={} id={} ans=ok", next + j, c.now, id));
+                } else {
+                    c.op(&format!("ev n1 ddata dev=1 seq={} ts={} id={} ans=ok", next + j, c.now, id));
+                }
+            }
+            c.out.nontrivial();
+            c.out.count("rejecting-client-scenario");
+        }
+    }
 }
 
 /// the timestamp an NDEATH payload carries: the arrival time (default), none (srad-eon's will), or the
@@ -2576,6 +2772,8 @@ pub fn run(args: &Args, out: &mut Out) -> &'static str {
     let mut rng = Rng::new(args.seed);
     let th = args.thorough();
     trigger_scenarios(out);
+    refused_birth_scenarios(out, &mut rng);
+    rejecting_client_scenarios(out, &mut rng);
     skew_scenarios(out, &mut rng);
     late_duplicate_scenario(out, "-");
     late_duplicate_scenario(out, "100");
